@@ -4,6 +4,7 @@ import (
 	"encoding/json"
 	"fmt"
 	"math/big"
+	"strings"
 	"time"
 
 	jsonproc "github.com/iden3/go-schema-processor/v2/json"
@@ -580,6 +581,8 @@ func genC18(out *Out, r *Rng, tier string, n int, shard int) {
 					Tags: []string{"draft:" + g.draft, "verdict:" + verdict, "big-number-bound", "kw:" + kw}, NT: true})
 			}
 		}
+		// a JSON number is validated by its value, however it is written
+		emitNumberSpellings(out, r, root, g.draft)
 		// annotation members are ignored: the verdicts must not change when $metadata is removed
 		noMeta := OObj{}
 		for _, kv := range root {
@@ -601,6 +604,333 @@ func genC18(out *Out, r *Rng, tier string, n int, shard int) {
 	}
 	if shard == 0 {
 		emitSchemaErrors(out)
+	}
+}
+
+// ---------- number spellings ----------
+//
+// RFC 8259 gives a number many spellings (fraction, exponent with e or E, with +, - or no sign, leading zeros in the exponent,
+// trailing zeros in the fraction, -0); JSON Schema validates the value. The family below: a schema with one numeric
+// subschema (bounds / integer / enum / const / multipleOf) applied to a member, a nested member and the elements of an array,
+// and documents whose numbers sit on and next to the schema's own numbers, each written in a random spelling.
+// Judged three ways: against the Lean validator (exact decimals), against the conformance computed here with big.Rat, and
+// against the verdict for the same document with every number written as a plain decimal.
+
+// m * 10^e
+type c18dec struct {
+	m *big.Int
+	e int
+}
+
+func (d c18dec) rat() *big.Rat {
+	p := new(big.Int).Exp(big.NewInt(10), big.NewInt(int64(absInt(d.e))), nil)
+	if d.e >= 0 {
+		return new(big.Rat).SetInt(new(big.Int).Mul(d.m, p))
+	}
+	return new(big.Rat).SetFrac(d.m, p)
+}
+
+func absInt(x int) int {
+	if x < 0 {
+		return -x
+	}
+	return x
+}
+
+// m * 10^e without an exponent: "1200", "-0.0025", "2.5"
+func plainDec(m *big.Int, e int) string {
+	neg := m.Sign() < 0
+	ds := new(big.Int).Abs(m).String()
+	var s string
+	switch {
+	case m.Sign() == 0:
+		s = "0"
+	case e >= 0:
+		s = ds + strings.Repeat("0", e)
+	default:
+		if len(ds) <= -e {
+			ds = strings.Repeat("0", -e-len(ds)+1) + ds
+		}
+		s = ds[:len(ds)+e] + "." + ds[len(ds)+e:]
+	}
+	if neg {
+		s = "-" + s
+	}
+	return s
+}
+
+// one of the spellings of d; kind names the form
+func spellNumber(r *Rng, d c18dec) (text, kind string) {
+	x := 0
+	switch r.Intn(10) {
+	case 0, 1:
+		return plainDec(d.m, d.e), "plain"
+	case 2, 3, 4, 5, 6:
+		kind, x = "exp-negative", -(1 + r.Intn(9))
+	case 7:
+		kind, x = "exp-unsigned", 1+r.Intn(4)
+	case 8:
+		kind, x = "exp-plus", 1+r.Intn(4)
+	default:
+		kind = "exp-zero"
+	}
+	mant := plainDec(d.m, d.e-x)
+	if d.m.Sign() == 0 && r.Chance(30) {
+		mant = "-0"
+	}
+	if r.Chance(20) { // trailing zeros of the fraction
+		if !strings.Contains(mant, ".") {
+			mant += "."
+		}
+		mant += strings.Repeat("0", 1+r.Intn(2))
+	}
+	sign := ""
+	switch kind {
+	case "exp-negative":
+		sign = "-"
+	case "exp-plus":
+		sign = "+"
+	case "exp-zero":
+		sign = r.Pick([]string{"", "+", "-"})
+		if sign == "-" {
+			kind = "exp-negative"
+		}
+	}
+	ex := fmt.Sprint(absInt(x))
+	if r.Chance(25) {
+		ex = strings.Repeat("0", 1+r.Intn(2)) + ex
+	}
+	return mant + r.Pick([]string{"e", "E"}) + sign + ex, kind
+}
+
+type c18numSchema struct {
+	kind    string
+	integer bool
+	typed   bool
+	bounds  map[string]c18dec
+	members []c18dec // enum / const
+	step    *c18dec
+}
+
+func (ns c18numSchema) conforms(v c18dec) bool {
+	x := v.rat()
+	if ns.integer && !x.IsInt() {
+		return false
+	}
+	for kw, b := range ns.bounds {
+		c := x.Cmp(b.rat())
+		if (kw == "minimum" && c < 0) || (kw == "maximum" && c > 0) || (kw == "exclusiveMinimum" && c <= 0) || (kw == "exclusiveMaximum" && c >= 0) {
+			return false
+		}
+	}
+	if ns.members != nil {
+		found := false
+		for _, m := range ns.members {
+			if x.Cmp(m.rat()) == 0 {
+				found = true
+			}
+		}
+		if !found {
+			return false
+		}
+	}
+	if ns.step != nil && !new(big.Rat).Quo(x, ns.step.rat()).IsInt() {
+		return false
+	}
+	return true
+}
+
+// the numbers the schema itself mentions: instances are placed on and around them
+func (ns c18numSchema) anchors() []c18dec {
+	var a []c18dec
+	for _, kw := range []string{"minimum", "maximum", "exclusiveMinimum", "exclusiveMaximum"} {
+		if b, ok := ns.bounds[kw]; ok {
+			a = append(a, b)
+		}
+	}
+	a = append(a, ns.members...)
+	return a
+}
+
+func emitNumberSpellings(out *Out, r *Rng, root OObj, draft string) {
+	rndDec := func() c18dec { return c18dec{big.NewInt(int64(r.Intn(101) - 50)), r.Intn(9) - 6} }
+	// the schema's own numbers: plain decimals mostly, now and then another spelling
+	schemaNum := func(d c18dec) RawNum {
+		if r.Chance(25) {
+			t, _ := spellNumber(r, d)
+			return RawNum(t)
+		}
+		return RawNum(plainDec(d.m, d.e))
+	}
+	ns := c18numSchema{bounds: map[string]c18dec{}}
+	sub := OObj{}
+	switch k := r.Intn(7); k {
+	case 0, 1, 2: // bounds on a number / an integer / anything
+		ns.kind = "bounds"
+		if k == 0 {
+			ns.typed = true
+			sub = append(sub, KV{"type", "number"})
+		} else if k == 1 {
+			ns.typed, ns.integer, ns.kind = true, true, "integer"
+			sub = append(sub, KV{"type", "integer"})
+		}
+		lo := rndDec()
+		if ns.integer && r.Chance(70) {
+			lo = c18dec{big.NewInt(int64(r.Intn(41) - 20)), 0}
+		}
+		hi := c18dec{new(big.Int).Add(lo.m, big.NewInt(int64(r.Intn(30)))), lo.e}
+		if r.Chance(70) {
+			kw := r.Pick([]string{"minimum", "exclusiveMinimum"})
+			ns.bounds[kw] = lo
+			sub = append(sub, KV{kw, schemaNum(lo)})
+		}
+		if r.Chance(70) || len(ns.bounds) == 0 && !ns.integer {
+			kw := r.Pick([]string{"maximum", "exclusiveMaximum"})
+			ns.bounds[kw] = hi
+			sub = append(sub, KV{kw, schemaNum(hi)})
+		}
+	case 3:
+		ns.kind = "integer"
+		ns.typed, ns.integer = true, true
+		sub = append(sub, KV{"type", "integer"})
+	case 4:
+		ns.kind = "enum"
+		var e []any
+		for i, n := 0, 1+r.Intn(3); i < n; i++ {
+			d := rndDec()
+			dup := false
+			for _, m := range ns.members {
+				if m.rat().Cmp(d.rat()) == 0 {
+					dup = true
+				}
+			}
+			if !dup {
+				ns.members = append(ns.members, d)
+				e = append(e, schemaNum(d))
+			}
+		}
+		e = append(e, "x")
+		sub = append(sub, KV{"enum", e})
+	case 5:
+		ns.kind = "const"
+		d := rndDec()
+		ns.members = []c18dec{d}
+		sub = append(sub, KV{"const", schemaNum(d)})
+	default:
+		ns.kind = "multipleOf"
+		ns.typed = true
+		st := c18dec{big.NewInt(int64(1 + r.Intn(25))), r.Intn(5) - 3}
+		ns.step = &st
+		sub = append(sub, KV{"type", "number"}, KV{"multipleOf", schemaNum(st)})
+	}
+	sch := OObj{}
+	for _, x := range root {
+		if x.K == "$schema" || x.K == "$metadata" {
+			sch = append(sch, x)
+		}
+	}
+	sch = append(sch, KV{"type", "object"}, KV{"properties", OObj{
+		{"n", sub},
+		{"o", OObj{{"type", "object"}, {"properties", OObj{{"n", sub}}}}},
+		{"s", OObj{{"type", "array"}, {"items", sub}}},
+	}})
+	sb := toJSONText(sch)
+
+	anchors := ns.anchors()
+	value := func() c18dec {
+		switch {
+		case ns.step != nil && r.Chance(70):
+			// a multiple of the step, or just off it
+			v := c18dec{new(big.Int).Mul(ns.step.m, big.NewInt(int64(r.Intn(21)-10))), ns.step.e}
+			if r.Chance(35) {
+				v = c18dec{new(big.Int).Add(new(big.Int).Mul(v.m, big.NewInt(10)), big.NewInt(int64(1+r.Intn(9)))), v.e - 1}
+			}
+			return v
+		case len(anchors) > 0 && r.Chance(75):
+			// on an anchor, or a little to either side of it (one unit of its last digit, or a tenth of that)
+			a := anchors[r.Intn(len(anchors))]
+			d := int64(r.Intn(5) - 2)
+			if r.Bool() {
+				return c18dec{new(big.Int).Add(a.m, big.NewInt(d)), a.e}
+			}
+			return c18dec{new(big.Int).Add(new(big.Int).Mul(a.m, big.NewInt(10)), big.NewInt(d)), a.e - 1}
+		case ns.integer && r.Chance(60):
+			// an integer written with a scale, e.g. 50 * 10^-1
+			k := r.Intn(4)
+			p := new(big.Int).Exp(big.NewInt(10), big.NewInt(int64(k)), nil)
+			return c18dec{new(big.Int).Mul(big.NewInt(int64(r.Intn(61)-30)), p), -k}
+		}
+		return rndDec()
+	}
+
+	for k := 0; k < 6; k++ {
+		// the same document twice: numbers spelled at random, and as plain decimals
+		var spelled, plain OObj
+		conforming := true
+		kinds := map[string]bool{}
+		wantOK := r.Bool() // half of the documents: conforming values where a few draws find one
+		num := func() (RawNum, RawNum) {
+			v := value()
+			for try := 0; wantOK && try < 10 && !ns.conforms(v); try++ {
+				v = value()
+			}
+			if !ns.conforms(v) {
+				conforming = false
+			}
+			t, kind := spellNumber(r, v)
+			kinds[kind] = true
+			return RawNum(t), RawNum(plainDec(v.m, v.e))
+		}
+		where := r.Intn(7) + 1 // bit 0: member, bit 1: nested member, bit 2: array
+		if where&1 != 0 {
+			a, b := num()
+			spelled, plain = append(spelled, KV{"n", a}), append(plain, KV{"n", b})
+		}
+		if r.Chance(30) {
+			spelled, plain = append(spelled, KV{"t", "1e-3"}), append(plain, KV{"t", "1e-3"})
+		}
+		if where&2 != 0 {
+			a, b := num()
+			spelled, plain = append(spelled, KV{"o", OObj{{"n", a}}}), append(plain, KV{"o", OObj{{"n", b}}})
+		}
+		if where&4 != 0 {
+			var as, bs []any
+			for i, n := 0, 1+r.Intn(3); i < n; i++ {
+				a, b := num()
+				as, bs = append(as, a), append(bs, b)
+			}
+			spelled, plain = append(spelled, KV{"s", as}), append(plain, KV{"s", bs})
+		}
+		db, pb := toJSONText(spelled), toJSONText(plain)
+		verdict, verr := verdictOf(db, sb)
+		pverdict, perr := verdictOf(pb, sb)
+		var why []string
+		if (verdict == "valid") != conforming {
+			why = append(why, fmt.Sprintf("number spelling: %s %s the schema %s but is reported %s (%v)", db, map[bool]string{true: "conforms to", false: "does not conform to"}[conforming],
+				trunc(string(toJSONText(sub)), 200), verdict, verr))
+		}
+		if (verdict == "valid") != (pverdict == "valid") {
+			why = append(why, fmt.Sprintf("the verdict depends on how a number is written: %s is reported %s (%v), the same values written %s are reported %s (%v); schema %s",
+				db, verdict, verr, pb, pverdict, perr, trunc(string(toJSONText(sub)), 200)))
+		}
+		if errClass(verr) == "panic" || errClass(verr) == "hang" {
+			why = append(why, verr.Error())
+		}
+		impl := J{"ok": verdict}
+		if verdict == "error" {
+			impl = J{"err": "err"}
+		}
+		op := "schema.validate"
+		if ns.step != nil {
+			op = "none" // multipleOf is outside the Lean validator: judged by the two predicates only
+		}
+		tags := []string{"draft:" + draft, "verdict:" + verdict, "number-spelling", "kw:" + ns.kind}
+		for _, kd := range []string{"plain", "exp-negative", "exp-unsigned", "exp-plus", "exp-zero"} {
+			if kinds[kd] {
+				tags = append(tags, "spelling:"+kd)
+			}
+		}
+		out.Emit(Case{Op: op, In: J{"schema": json.RawMessage(sb), "data": json.RawMessage(db)}, Impl: impl, Prop: propOf(why), Tags: tags, NT: true})
 	}
 }
 
